@@ -188,7 +188,7 @@ func c09Record(dir string, cfg c09Config) (b0 []byte, ops []lite.VfsOp, endDB, e
 }
 
 func runC09(r *ev.Run) {
-	r.Rule = "real SQLite write transactions (one-row autocommit update, small update, spilling bulk insert with cache_size=1, file-growing insert, delete with auto-vacuum truncation, schema change, spilled rollback, the first transaction ever on a file of 0 bytes, a writer with synchronous=OFF whose journal header carries the record count 0xFFFFFFFF) recorded under a logging VFS, journal modes DELETE/TRUNCATE/PERSIST, page sizes {512 (+1024, 4096 thorough)}, sector sizes {512, 4096}; for the log of N file operations: every prefix 0..N (the writer process dies before operation k; completed system calls persist) and for every write its torn variants (first 512 bytes, first half rounded to 512; for small writes every 4-byte prefix); oracle: real SQLite opens a copy of the pair, performs its own recovery and dumps it; sqlittle on the original either fails or returns exactly that dump; every image is read by a fresh handle (operation boundaries: also one that opens the file through a symbolic link, by a relative name, and through `link/../name` behind a symbolically linked directory) and by handles opened before the writer started: one that read everything, one that was only opened, one that only listed the tables, (operation boundaries) one that was refused a read once while another process held EXCLUSIVE, and a fresh handle while another process is in the middle of a read; from the commit point on (journal deleted / truncated / header zeroed) and before the first operation it must succeed. conformance: replaying the whole log reproduces the files the real run left behind, byte for byte. non-trivial = images with a journal on disk"
+	r.Rule = "real SQLite write transactions (one-row autocommit update, small update, spilling bulk insert with cache_size=1, file-growing insert, delete with auto-vacuum truncation, schema change, spilled rollback, the first transaction ever on a file of 0 bytes, a writer with synchronous=OFF whose journal header carries the record count 0xFFFFFFFF) recorded under a logging VFS, journal modes DELETE/TRUNCATE/PERSIST, page sizes {512 (+1024, 4096 thorough)}, sector sizes {512, 4096}; for the log of N file operations: every prefix 0..N (the writer process dies before operation k; completed system calls persist) and for every write its torn variants (first 512 bytes, first half rounded to 512; for small writes every 4-byte prefix); oracle: real SQLite opens a copy of the pair, performs its own recovery and dumps it; sqlittle on the original either fails or returns exactly that dump; every image is read by a fresh handle (operation boundaries: also one that opens the file through a symbolic link, by a relative name, and through `link/../name` behind a symbolically linked directory) and by handles opened before the writer started (one of them by a relative name in a process that changes its working directory afterwards): one that read everything, one that was only opened, one that only listed the tables, (operation boundaries) one that was refused a read once while another process held EXCLUSIVE, and a fresh handle while another process is in the middle of a read; from the commit point on (journal deleted / truncated / header zeroed) and before the first operation it must succeed. conformance: replaying the whole log reproduces the files the real run left behind, byte for byte. non-trivial = images with a journal on disk"
 	dir := ev.TmpDir("c09")
 	defer os.RemoveAll(dir)
 	c09Peers = make(chan *Peer, 8)
@@ -327,6 +327,8 @@ func runC09(r *ev.Run) {
 				for _, kind := range []string{"fresh-by-symlink", "fresh-by-relative-name", "fresh-by-dotdot-behind-a-symlinked-directory"} {
 					c09ImageKind(r, dir, fmt.Sprintf("c%d-n%d", ci, ii), cfg, &f, desc, mustSucceed, im.k, opsS, nil, kind)
 				}
+				// ... or a handle opened by a relative name in a process that changes its working directory afterwards
+				c09ImageKind(r, dir, fmt.Sprintf("c%d-w%d", ci, ii), cfg, &f, desc, mustSucceed, im.k, opsS, b0, "relative-name-then-chdir")
 				// ... or was refused a read once (another process held the EXCLUSIVE lock), then read fine
 				c09ImageKind(r, dir, fmt.Sprintf("c%d-r%d", ci, ii), cfg, &f, desc, mustSucceed, im.k, opsS, b0, "refused-before")
 				// ... and a fresh handle while ANOTHER process is in the middle of a read (holds SHARED): the dead
@@ -347,6 +349,10 @@ func c09Image(r *ev.Run, dir, name string, cfg c09Config, f *c09Files, desc stri
 // kind (with before != nil): what the handle did before the writer started: "long-lived" read everything,
 // "opened-only" nothing (Open remembers the header), "schema-only" listed the tables
 func c09ImageKind(r *ev.Run, dir, name string, cfg c09Config, f *c09Files, desc string, mustSucceed bool, k int, opsS []string, before []byte, kind string) {
+	if kind == "relative-name-then-chdir" {
+		c09Chdir(r, dir, name, cfg, f, desc, mustSucceed, k, opsS, before)
+		return
+	}
 	// the journal is found by name: vary the database file's name (extension, dots, none)
 	exts := []string{".sqlite", ".db", "", ".a.b", "-journal.sqlite", ".SQLITE", ".sqlite3"}
 	ext := exts[(k+len(name))%len(exts)]
@@ -528,6 +534,91 @@ func c09ImageKind(r *ev.Run, dir, name string, cfg c09Config, f *c09Files, desc 
 	r.Outcome("read")
 	if !sqliteOK {
 		// SQLite itself cannot read the copy (does not happen for process-death images): nothing to compare with
+		r.Outcome("sqlite-cannot-read")
+		return
+	}
+	r.Validated(1)
+	if got != want {
+		r.Violation("C09:unrecovered-data:"+cfg.mode+":"+handle, fmt.Sprintf("%s, %s (%s handle): sqlittle reads content that differs from what SQLite reports after its recovery: %s", cfg, desc, handle, firstLineDiff(got, want)), art)
+	}
+}
+
+// c09Chdir: the handle lives in another process (a working directory belongs to a process): it is opened by
+// a relative name on the state before the transaction and lists the tables; the process changes its working
+// directory; the dead writer's files appear; the handle reads. SQLite makes the journal's name absolute when
+// the file is opened.
+func c09Chdir(r *ev.Run, dir, name string, cfg c09Config, f *c09Files, desc string, mustSucceed bool, k int, opsS []string, before []byte) {
+	if len(before) == 0 {
+		return
+	}
+	sub := filepath.Join(dir, name+"-wd")
+	os.MkdirAll(sub, 0o755)
+	defer os.RemoveAll(sub)
+	orig := filepath.Join(sub, "db.sqlite")
+	cp := filepath.Join(sub, "copy.sqlite")
+	os.WriteFile(orig, before, 0o644)
+	p := <-c09Peers
+	defer func() {
+		p.Do("eclose")
+		p.Do("chdir /")
+		c09Peers <- p
+	}()
+	if st, rest := p.Do("chdir " + sub); st != "ok" {
+		r.Harness("C09 chdir: %s", rest)
+		return
+	}
+	if st, rest := p.Do("eopen db.sqlite"); st != "ok" {
+		r.Harness("C09 open by relative name: %s", rest)
+		return
+	}
+	if st, rest := p.Do("etables"); st != "ok" {
+		r.Harness("C09 tables before: %s", rest)
+		return
+	}
+	p.Do("chdir /")
+	fh, err := os.OpenFile(orig, os.O_WRONLY, 0)
+	if err != nil {
+		r.Harness("C09 rewrite: %v", err)
+		return
+	}
+	fh.WriteAt(f.db, 0)
+	fh.Truncate(int64(len(f.db)))
+	fh.Close()
+	os.WriteFile(cp, f.db, 0o644)
+	if f.hasJ {
+		os.WriteFile(orig+"-journal", f.journal, 0o644)
+		os.WriteFile(cp+"-journal", f.journal, 0o644)
+	}
+	r.Eval(1)
+	r.Trans(1)
+	if f.hasJ {
+		r.NontrivialN(1)
+	}
+	from := k - 3
+	if from < 0 {
+		from = 0
+	}
+	handle := "relative-name-then-chdir"
+	art := map[string]interface{}{"config": cfg.String(), "crash": desc, "handle": handle, "journal_bytes": len(f.journal), "journal_exists": f.hasJ, "db_bytes": len(f.db), "operations_before": opsS[from:k]}
+	var want string
+	sqliteOK := false
+	if l, err := lite.Open(cp, ""); err == nil {
+		if d, err := LiteDump(l); err == nil {
+			want = d.String()
+			sqliteOK = true
+		}
+		l.Close()
+	}
+	st, got := p.Do("edump")
+	if st != "ok" {
+		r.Outcome("refused")
+		if mustSucceed {
+			r.Violation("C09:refused-after-commit:"+cfg.mode+":"+handle, fmt.Sprintf("%s, %s: the transaction is complete (or has not started) but reading fails: %s", cfg, desc, got), art)
+		}
+		return
+	}
+	r.Outcome("read")
+	if !sqliteOK {
 		r.Outcome("sqlite-cannot-read")
 		return
 	}
